@@ -13,7 +13,7 @@ from . import common as C
 LEVEL = "exploration"
 RULE = ("configurations = the 4 shipped parameter sets (complete list; every clause of the statement evaluated on the tree's constants and "
         "compared with frozen values) + every (p,q,g), p < 300 prime, q prime dividing p-1, 0 <= g <= p, handed to the IntegerGroup "
-        "constructor (accepted => multiplicative order of g divides q, by enumeration). evaluations = clauses/constructor calls evaluated; "
+        "constructor (accepted => multiplicative order of g divides q, by enumeration) + on six wider moduli (64..256 bits, p = q*m+1) the generators whose q-th power is NOT 1 but agrees with 1 under a shortened comparison (mod 2^8..2^128, mod 2^31-1, mod 2^61-1, same low bytes, same high bytes, p-1), obtained as q-th roots, plus honest generators, their negatives and doubles. evaluations = clauses/constructor calls evaluated; "
         "distinct_nontrivial = distinct (configuration, clause) pairs that hold non-vacuously + distinct (p,q) for which both an accepted "
         "and a rejected generator were seen")
 ASSUMPTIONS = ["primality of the 160..3072-bit constants: Miller-Rabin on 40 fixed bases + strong Lucas (deterministic, not an enumeration)",
@@ -22,8 +22,12 @@ ASSUMPTIONS = ["primality of the 160..3072-bit constants: Miller-Rabin on 40 fix
 EXHAUSTIVE = True
 
 
+_M61, _M31 = (1 << 61) - 1, (1 << 31) - 1
+WIDE = [(64, 11), (64, 257), (96, 101), (128, 11), (160, 257), (256, 101)]       # (bits of p, q)
+
+
 def bounds(tier):
-    return {"constructor_p_below": 300 if tier == "quick" else 600, "shipped": T.SHIPPED}
+    return {"constructor_p_below": 300 if tier == "quick" else 600, "constructor_wide_bits_q": WIDE, "shipped": T.SHIPPED}
 
 
 def clause(acc, name, cl, ok, expected, observed):
@@ -256,6 +260,85 @@ def _ctor_task(task):
     return acc
 
 
+# ---------------------------------------------------------------------------
+# constructor on wide moduli: generators whose q-th power only LOOKS like the identity
+
+
+
+def _wide_prime(bits, q):
+    """smallest prime p = q*m + 1 above 2^(bits-1) + 12345 with gcd(q, m) = 1 (so that q-th roots are one pow())"""
+    m = ((1 << (bits - 1)) + 12345) // q + 1
+    while True:
+        p = q * m + 1
+        if m % q and numth.is_prime(p):
+            return p, m
+        m += 1
+
+
+def _confusable_residues(p):
+    """values t != 1 of g^q mod p that a shortened comparison would take for 1"""
+    out = []
+    for lab, M in (("mod 2^8", 1 << 8), ("mod 2^16", 1 << 16), ("mod 2^32", 1 << 32), ("mod 2^63", 1 << 63), ("mod 2^64", 1 << 64), ("mod 2^31-1", _M31),
+                   ("mod 2^61-1", _M61), ("mod 2^128", 1 << 128)):
+        if M < p:
+            out.append((lab, [1 + k * M for k in range(1, 4000) if 1 + k * M < p]))
+    bl = (p.bit_length() + 7) // 8
+    out.append(("low bytes differ only", [1 + (k << (8 * (bl - 1))) for k in range(1, 256) if 1 + (k << (8 * (bl - 1))) < p]))   # same low bytes
+    out.append(("small", list(range(2, 300))))                                   # same high bytes as 1
+    out.append(("p-1 and neighbours", [p - 1, p - 2, (p + 1) // 2]))
+    return out
+
+
+def _ctor_wide_task(task):
+    bits, q = task
+    grp = T.lib().groups.IntegerGroup
+    acc = Acc()
+    p, m = _wide_prime(bits, q)
+    e = pow(q, -1, m)
+    acc_ok = rej = 0
+
+    def feed(g, why):
+        nonlocal acc_ok, rej
+        got = T.observe(lambda: grp(p=p, q=q, g=g))
+        acc.n(evaluations=1, transitions=1, states=1)
+        good = 1 < g % p and pow(g % p, q, p) == 1
+        if got[0] == "ok":
+            acc_ok += 1
+            if pow(g % p, q, p) != 1 or g % p == 0:
+                acc.violation("C18/constructor/accepts-bad-generator", {"what": "IntegerGroup(p,q,g) on a %d-bit modulus accepts a generator whose order does not divide q (g^q mod p %s)" % (bits, why),
+                              "replay": {"fn": "ctor_wide", "p": p, "q": q, "g": g}, "expected": "raises", "observed": ("ok", "g^q mod p = %d" % pow(g % p, q, p))})
+        else:
+            rej += 1
+            if good and 1 < g < p:
+                acc.violation("C18/constructor/rejects-good-generator", {"what": "IntegerGroup(p,q,g) on a %d-bit modulus refuses a generator of order exactly q" % bits,
+                              "replay": {"fn": "ctor_wide", "p": p, "q": q, "g": g}, "expected": "group", "observed": got})
+
+    for lab, ts in _confusable_residues(p):
+        found = 0
+        for t in ts:
+            if pow(t, m, p) != 1:            # not a q-th power
+                continue
+            g = pow(t, e, p)
+            assert pow(g, q, p) == t
+            feed(g, "= 1 " + lab if lab.startswith("mod") else "is %s" % lab)
+            found += 1
+            if found >= 3:
+                break
+        if found:
+            acc.seen(("ctor_wide", bits, q, lab))
+    # honest generators and their unreduced / shifted representatives
+    for h in (2, 3, 5, 7):
+        g = pow(h, m, p)
+        if g != 1:
+            feed(g, "honest")
+            feed(p - g, "negated honest generator")       # order 2q
+            feed(g * 2 % p, "honest generator times 2")
+    if acc_ok and rej:
+        acc.seen(("ctor_wide", bits, q))
+    acc.n(traces=1)
+    return acc
+
+
 def run(tier, seed):
     acc = Acc()
     core.pmerge(_int_set, ["Params1024", "Params2048", "Params3072"], acc)
@@ -269,6 +352,7 @@ def run(tier, seed):
             if (p - 1) % q == 0 and numth.is_prime_trial(q):
                 tasks.append((p, q))
     core.pmerge(_ctor_task, tasks, acc)
+    core.pmerge(_ctor_wide_task, WIDE, acc)
     # integer sets only: their derivation is a handful of source lines (pow() is one step); the Ed25519 try-and-increment loop is
     # tens of thousands of line events per element and is left to C16's thread harnesses on toy groups
     core.pmerge(_concurrent_first_use, [("Params1024", 1)] if tier == "quick" else [("Params1024", 2), ("Params2048", 2), ("Params3072", 1)], acc)
@@ -277,6 +361,9 @@ def run(tier, seed):
 
 def replay(rec):
     r = T.unjson(rec["replay"])
+    if r["fn"] == "ctor_wide":
+        got = T.observe(lambda: T.lib().groups.IntegerGroup(p=r["p"], q=r["q"], g=r["g"]))
+        return got if got[0] != "ok" else ("ok", "g^q mod p = %d" % pow(r["g"] % r["p"], r["q"], r["p"]))
     if r["fn"] == "ctor":
         got = T.observe(lambda: T.lib().groups.IntegerGroup(p=r["p"], q=r["q"], g=r["g"]))
         return got if got[0] != "ok" else ("ok", "order %d" % numth.mult_order(r["g"], r["p"]))
